@@ -422,6 +422,29 @@ def integer_flows_case(rec, hub, rng):
     hub.ctx.pop("perturbation", None)
 
 
+def many_small_residuals_case(rec, hub, rng):
+    """sysenv -> A -> sysenv over thousands of label combinations; every single balance is off by a few rounding errors (far inside the
+    default tolerance, which bounds each ENTRY in absolute value), however many entries there are"""
+    fd = hub.fd
+    d = SY.Def()
+    nt, nr = int(rng.integers(60, 110)), int(rng.integers(60, 110))
+    d.dims = [("t", "time", list(range(1900, 1900 + nt)), int), ("r", "region", [f"r{j:03d}" for j in range(nr)], str)]
+    d.processes = ["sysenv", "use phase"]
+    d.flows = [dict(src="sysenv", dst="use phase", letters=("t", "r"), override="fl00q"), dict(src="use phase", dst="sysenv", letters=("t", "r"), override="fl01q")]
+    mfa = SY.build_system(fd, d)
+    v = rng.uniform(50.0, 100.0, size=(nt, nr))
+    k = rng.integers(-40, 41, size=(nt, nr)).astype(float)
+    mfa.flows["fl00q"][...] = v
+    mfa.flows["fl01q"][...] = v * (1.0 + k * EPS)  # each entry within ~40 rounding errors of its partner; the tolerance is 100 of them at the largest magnitude
+    hub.ctx["perturbation"] = "many-small-residuals"
+    for raise_error in (True, False):
+        try:
+            mfa.check_mass_balance(raise_error=raise_error)
+        except Exception:
+            pass
+    hub.ctx.pop("perturbation", None)
+
+
 def perturb_pair(mfa, rng, delta):
     """+delta at one entry and -delta at another entry of the same array: totals are preserved, balances by label are not"""
     arrays = [f for f in mfa.flows.values() if f.values.size > 1 and f.values.dtype.kind == "f"]
@@ -595,6 +618,37 @@ def one(rec, hub, seed, tier, i):
                         pass
             finally:
                 undo()
+    # a system re-assembled from copies: flows deep-copied one by one (each carries its own copies of its processes), the process
+    # dictionary rebuilt from the names - the same system as far as names, ids and values go
+    if flows and i % 5 == 3:
+        try:
+            re_procs = fd.make_processes(list(mfa.processes.keys())) if list(mfa.processes.keys())[0] == "sysenv" else dict(mfa.processes)
+            how_c = int(rng.integers(0, 3))
+            import copy as _copy
+
+            re_flows = {n_: (f_.model_copy(deep=True) if how_c == 0 else _copy.deepcopy(f_) if how_c == 1 else type(f_).model_validate(f_.model_dump())) for n_, f_ in mfa.flows.items()}
+            rebuilt = fd.MFASystem(dims=mfa.dims, parameters=mfa.parameters, processes=re_procs, flows=re_flows, stocks=mfa.stocks)
+        except Exception:
+            rebuilt = None
+        if rebuilt is not None:
+            hub.ctx["perturbation"] = "system-rebuilt-from-copies"
+            for raise_error in (True, False):
+                try:
+                    rebuilt.check_mass_balance(raise_error=raise_error)
+                except Exception:
+                    pass
+            fl_ = [f_ for f_ in rebuilt.flows.values() if f_.values.size and f_.values.dtype.kind == "f"]
+            if fl_:
+                f0_ = fl_[int(rng.integers(0, len(fl_)))]
+                pos_ = tuple(int(x_) for x_ in np.unravel_index(int(rng.integers(0, f0_.values.size)), f0_.values.shape))
+                old_ = f0_.values[pos_].copy()
+                f0_.values[pos_] = old_ + 1e3 * (abs(float(old_)) + (explicit if explicit is not None else default_tolerance(rebuilt)) + 1.0)
+                for raise_error in (True, False):
+                    try:
+                        rebuilt.check_mass_balance(raise_error=raise_error)
+                    except Exception:
+                        pass
+                f0_.values[pos_] = old_
     # integer-dtype flows
     if flows and i % 4 == 0:
         f = flows[0]
@@ -618,6 +672,9 @@ def run(rec, hub, tier, seed, shard, nshards, budget):
         if kk % 5 == 0:
             rec.set_case(driver="c02.tiny", seed=seed, tier=tier, shard=shard, nshards=nshards, idx=i)
             tiny_chain_case(rec, hub, case_nprng(seed, "c02.tiny", 0, i))
+        if kk % 60 == 7:
+            rec.set_case(driver="c02.manysmall", seed=seed, tier=tier, shard=shard, nshards=nshards, idx=i)
+            many_small_residuals_case(rec, hub, case_nprng(seed, "c02.manysmall", 0, i))
         if kk % 5 == 2:
             rec.set_case(driver="c02.intflows", seed=seed, tier=tier, shard=shard, nshards=nshards, idx=i)
             integer_flows_case(rec, hub, case_nprng(seed, "c02.intflows", 0, i))
@@ -626,6 +683,9 @@ def run(rec, hub, tier, seed, shard, nshards, budget):
 def replay(rec, hub, case):
     register(hub)
     rec.set_case(**case)
+    if case["driver"] == "c02.manysmall":
+        many_small_residuals_case(rec, hub, case_nprng(case["seed"], "c02.manysmall", 0, case["idx"]))
+        return
     if case["driver"] == "c02.intflows":
         integer_flows_case(rec, hub, case_nprng(case["seed"], "c02.intflows", 0, case["idx"]))
         return
